@@ -47,7 +47,7 @@ func loadEngine(repo string, cfg BuildConfig, contractDir string) (*Engine, erro
 	}
 	prog, spkgs := ssautil.AllPackages(pkgs, ssa.InstantiateGenerics|ssa.GlobalDebug)
 	prog.Build()
-	en := &Engine{prog: prog, pkgs: map[string]*ssa.Package{}, contracts: map[string]*PkgContracts{}, globals: map[*ssa.Global]*Region{}, globalInit: map[*ssa.Global]Cell{}, oblSeq: map[string]int{}, cfgName: cfg.Name, maxSteps: 4000000, maxPaths: 20000, inlineDepthMax: 12,
+	en := &Engine{prog: prog, pkgs: map[string]*ssa.Package{}, contracts: map[string]*PkgContracts{}, globals: map[*ssa.Global]*Region{}, globalInit: map[*ssa.Global]Cell{}, oblSeq: map[string]int{}, cfgName: cfg.Name, maxSteps: 4000000, maxPaths: 20000, inlineDepthMax: 12, sideBatch: 24, debugNames: map[ssa.Value]string{},
 		forceInline: map[string]bool{}, inlined: map[string]bool{}, usedContracts: map[string]bool{}, assumedUsed: map[string]bool{}, usedLoops: map[string]bool{}, loopHdrCache: map[*ssa.Function]map[int]int{}, callOrdCache: map[*ssa.Function]map[ssa.Instruction]int{}, usedCuts: map[string]bool{}, anchorCache: map[*ssa.Function]*cutAnchorSet{}}
 	for _, p := range spkgs {
 		if p != nil {
